@@ -713,12 +713,11 @@ func voxelRange(blockSize, begBlock, endBlock, begVoxel, endVoxel int32) (int32,
 func (d *Data) GetMask(ctx *datastore.VersionedCtx, subvol *dvid.Subvolume) ([]byte, error) {
 	pt0 := subvol.StartPoint()
 	pt1 := subvol.EndPoint()
-	minBlockZ := pt0.Value(2) / d.BlockSize[2]
-	maxBlockZ := pt1.Value(2) / d.BlockSize[2]
-	minBlockY := pt0.Value(1) / d.BlockSize[1]
-	maxBlockY := pt1.Value(1) / d.BlockSize[1]
-	minBlockX := pt0.Value(0) / d.BlockSize[0]
-	maxBlockX := pt1.Value(0) / d.BlockSize[0]
+	// floor division, so masks over negative coordinates find the spans of their blocks
+	chunk0 := dvid.Point3d{pt0.Value(0), pt0.Value(1), pt0.Value(2)}.Chunk(d.BlockSize).(dvid.ChunkPoint3d)
+	chunk1 := dvid.Point3d{pt1.Value(0), pt1.Value(1), pt1.Value(2)}.Chunk(d.BlockSize).(dvid.ChunkPoint3d)
+	minBlockX, minBlockY, minBlockZ := chunk0[0], chunk0[1], chunk0[2]
+	maxBlockX, maxBlockY, maxBlockZ := chunk1[0], chunk1[1], chunk1[2]
 
 	minIndex := minIndexByBlockZ(minBlockZ)
 	maxIndex := maxIndexByBlockZ(maxBlockZ)
